@@ -90,6 +90,10 @@ var c19Files = map[string]string{
 	"use3last.twig":   "{% extends 'base.twig' %}{% use 'blocksA.twig' %}{% use 'blocksB.twig' %}{% use 'nofile.twig' %}",
 	"inc3first.twig":  "a{% include 'nofile.twig' %}{% include 'valid.twig' %}{% include 'base.twig' %}",
 	"imp3first.twig":  "{% import 'nofile.twig' as a %}{% import 'macros.twig' as b %}{% from 'macros.twig' import m %}",
+	// sources that are not valid UTF-8 (they render on the pinned tree; whatever is done with them, nothing stays behind)
+	"latin1.twig":   "caf\xe9 {{ x }} {% if x %}\xe9t\xe9{% endif %}",
+	"badutf8.twig":  "{{ '\x80' }}{# \xff #}\xe2\x82{% for i in z %}\xc3{% endfor %}",
+	"inclatin.twig": "a{% include 'latin1.twig' %}b",
 	// reached through symbolic links (created by the setup below)
 	"inclink.twig": "a{% include 'link.twig' %}{% include 'linkbad.twig' %}b",
 }
@@ -165,6 +169,11 @@ func c19Ops() []c19Op {
 	// string loader: the base template with one syntax error injected at each token boundary
 	toks := scanTokens(c19Base)
 	add("exec/str/valid", func(e *c19Envs) error { return c19Exec(e.str, c19Base) })
+	for i, src := range []string{"caf\xe9 {{ x }}", "{{ '\x80' }}", "\xff", "{% if x %}\xe2\x82{% endif %}" + strings.Repeat("{{ a }} t\xe9xt ", 50)} {
+		src := src
+		add(fmt.Sprintf("exec/str/invalid-utf8#%d", i), func(e *c19Envs) error { return c19Exec(e.str, src) })
+		add(fmt.Sprintf("parse/str/invalid-utf8#%d", i), func(e *c19Envs) error { _, err := e.str.Parse(src); return err })
+	}
 	for i := 0; i <= len(toks); i++ {
 		for _, frag := range []string{"$", "{%", "\"", "{{ ("} {
 			src := strings.Join(toks[:i], "") + frag + strings.Join(toks[i:], "")
